@@ -695,6 +695,50 @@ Proof.
   destruct (version_ok runnable SysExe w); [reflexivity|discriminate].
 Qed.
 
+(* RESTORE of a backup whose agent runs, complete or not: every backed-up file is put in place *)
+Lemma restore_each d w e :
+  fs_get BakExe (wfs w) = Some e -> runnable e = true ->
+  let w' := exec runnable fails (Restore d) w in
+  fs_get SysExe (wfs w') = Some e /\
+  (forall f, fs_get BakCfg (wfs w) = Some f -> fs_get SysCfg (wfs w') = Some f) /\
+  (forall f, fs_get BakEbpf (wfs w) = Some f -> fs_get SysEbpf (wfs w') = Some f) /\
+  (forall f, fs_get BakUnit (wfs w) = Some f -> fs_get SysUnit (wfs w') = Some f).
+Proof.
+  intros He Hr w'. subst w'. unfold exec. cbn [script].
+  unfold backup_exists, fs_has. rewrite He.
+  unfold restore_ops, copy_files_ops, setup_service_ops. cbn [app].
+  cbn [run_ops step_op]. unfold version_ok. fsn. rewrite He, Hr.
+  cbn [run_ops step_op].
+  destruct (fs_get BakCfg (wfs w)) as [c|] eqn:Hc; destruct (fs_get BakEbpf (wfs w)) as [b|] eqn:Hb;
+    destruct (fs_get BakUnit (wfs w)) as [u|] eqn:Hu;
+    unfold fs_has; fsn; rewrite ?He, ?Hc, ?Hb, ?Hu; cbn [loc_eqb]; rewrite ?He, ?Hc, ?Hb, ?Hu;
+    cbn [run_ops step_op];
+    destruct d; cbn [app run_ops step_op]; unfold remove_backup_dir; cbn [wfs emit set_fs];
+    rewrite ?fs_get_del_where; fsn; rewrite ?He, ?Hc, ?Hb, ?Hu; cbn [loc_eqb in_backup];
+    rewrite ?He, ?Hc, ?Hb, ?Hu;
+    (refine (conj _ (conj _ (conj _ _))); [reflexivity| | | ]; intros f Hf; first [discriminate Hf | exact Hf]).
+Qed.
+
+(* REVERSIBILITY, file by file: when the installed agent answers --version, every system file
+   that was present before backup; install; restore is reinstated exactly -- also from a partial
+   install (what was absent is not constrained: the newer file of that kind stays) *)
+Lemma reversible_each d w l f :
+  version_ok runnable SysExe w = true -> In l sys_locs -> fs_get l (wfs w) = Some f ->
+  fs_get l (wfs (exec runnable fails (Restore d) (exec runnable fails Install (exec runnable fails Backup w)))) = Some f.
+Proof.
+  intros V L F. unfold version_ok in V.
+  destruct (fs_get SysExe (wfs w)) as [e|] eqn:He; [|discriminate].
+  set (w2 := exec runnable fails Install (exec runnable fails Backup w)).
+  assert (Be : fs_get BakExe (wfs w2) = Some e).
+  { subst w2. rewrite install_sys_only by reflexivity. rewrite backup_get, He. reflexivity. }
+  destruct (restore_each d w2 e Be V) as [R1 [R2 [R3 R4]]].
+  destruct L as [<-|[<-|[<-|[<-|[]]]]].
+  - rewrite R1. congruence.
+  - apply R2. subst w2. rewrite install_sys_only by reflexivity. rewrite backup_get, F. reflexivity.
+  - apply R3. subst w2. rewrite install_sys_only by reflexivity. rewrite backup_get, F. reflexivity.
+  - apply R4. subst w2. rewrite install_sys_only by reflexivity. rewrite backup_get, F. reflexivity.
+Qed.
+
 (* the same after any history: whatever commands ran before, once a version is installed the
    triple backup; install; restore reinstates it *)
 Lemma reversible_after_history cmds d w :
